@@ -76,14 +76,38 @@ def c09_overlay(tmpdir):
     return {os.path.join(vlib.REPO, "stack/zz_verif_c09.go"): p}
 
 
+def _linger():
+    """-linger (remove addresses that routes still reference; tcp SYNs through a promiscuous NIC to a
+    listener) is generated only once the pattern is listed in known_findings.json."""
+    import vlib
+    return any(k["property"] == "C09" and k["pattern"] == "C09-lingering-address" and k["status"] == "known"
+               for k in vlib.load_known())
+
+
+def _args(n):
+    def f(seed):
+        a = ["-seed", seed, "-n", n]
+        if _linger():
+            a += ["-linger"]
+        return a
+    return f
+
+
 SPEC = dict(
     id="C09", corr="Corr.C09", driver="h_c09", overlay=True, extra_overlay=c09_overlay,
     targets=["Properties/C09.vo", "Corr/C09.vo"],
-    args=lambda tier, seed: ["-seed", seed, "-n", 320 if tier == "quick" else 4000],
-    search_args=lambda seed: ["-seed", seed, "-n", 500],
-    shard=24, timeout=2400,
-    patterns={},
-    rule="",
-    trusted_base=[KERNEL, CORR_TB],
-    assumptions=[],
+    args=lambda tier, seed: _args(320 if tier == "quick" else 5000)(seed),
+    search_args=lambda seed: _args(600)(seed),
+    shard=40, timeout=2400,
+    patterns={2: "C09-lingering-address"},
+    rule="seeded histories (44 steps after the configuration; every 8th history 12-31 steps) on a fresh real stack with 2 recording NICs (IPv4 + IPv6 + ARP, TCP + UDP; routes 10.0.1/24 -> NIC 1, 10.0.2/24 -> NIC 2, 0/0 and ::/0 -> NIC 1): 0-3 of 3 IPv4 addresses per NIC and sometimes an IPv6 address on NIC 1, AddAddress / RemoveAddress, AddSubnet (contiguous, non-contiguous, /32, /0, IPv6, two malformed), SetPromiscuousMode; up to 9 sockets from {UDP v4 / v6, TCP v4 / v6}: Bind (wildcard / held / unassigned address, NIC 0 / 1 / 2, 4 ports), UDP Connect (bound or unbound with the ephemeral port as oracle input, reconnect, wrong family, port 0), Listen (also where not allowed), re-Bind, Close; raw Stack.RegisterTransportEndpoint / UnregisterTransportEndpoint of 4 recording fake endpoints under all four id shapes, protocol lists [v4] [v6] [v4,v6] [v6,v4] [p,p] [p,unknown], duplicates of live ids (also of real sockets' ids), unknown NIC; 46% of the steps are inbound packets with a unique tag: UDP datagrams and TCP SYN / ACK / RST / RST+ACK segments, 70% aimed at a live registration (wildcard fields filled from the address / port pools, one field perturbed with probability 1/2), 30% drawn from the cross product NIC x {held, other NIC's, unassigned, foreign} destination x ports x sources. Observed per packet: which sockets' Read / fake endpoints' HandlePacket produced the tag, IP.PacketsDelivered, UDP.UnknownPortErrors and TCP.ValidSegmentsReceived deltas, frames that came back (RST / SYN-ACK, addresses and ports mirrored); snapshots of the real demultiplexer tables and NIC address tables (overlay accessors) at random points and at the end of every history. A history is non-trivial when a packet was delivered (tag bit 1), a RST came back (2) or a packet was accepted through promiscuous mode / a subnet (4); distinct = distinct case lines",
+    trusted_base=[KERNEL, CORR_TB, "Print Assumptions: every C09 theorem is closed under the global context (no axioms)",
+                  "overlay-added read accessors in package stack (VerifRegs, VerifAddrs: map walks under the owning locks, generated by lib/specs/C09.py; no logic under test)",
+                  "modelled, not verified: stack/transport_demuxer.go, the inbound half of stack/nic.go (getRef, addAddressLocked, RemoveAddress, DeliverNetworkPacket, DeliverTransportPacket), Stack.RegisterTransportEndpoint / UnregisterTransportEndpoint / FindRoute / CheckLocalAddress, tcpip.Subnet / Route.Match, the specific-port half of ports.go, and the registration behaviour of udp Bind / Connect / Close and tcp Bind / Listen / Close (hand-written Gallina model Model/Demux.v, tied by the differential run: error codes, receivers, replies and table snapshots)",
+                  "tcp: which listener took a SYN is observed through the SYN-ACK's addresses and ports and the TCP.ValidSegmentsReceived counter, not through Accept; the driver resets the SYN-RCVD child and waits for the tables to settle; the route reference that the child's Close leaves behind is accounted for in Corr/C09.v (leakRef)",
+                  "not modelled: spoofing, forwarding, v4-mapped addresses, IP fragments / ICMP, tcp active opens and established connections, concurrent registration / delivery (each modelled method runs under the owning mutex; histories are sequential)"],
+    assumptions=["a packet is given by its parsed fields: valid IP and transport headers, not a fragment (the ipv4 / ipv6 HandlePacket checks pass)",
+                 "at most one NIC holds a given address (CheckLocalAddress(0, ...) walks a Go map: the model goes by NIC list order)",
+                 "the ephemeral port chosen by PickEphemeralPort is an input of the model (random draw)",
+                 "netProtos lists passed to registerEndpoint have no repetition for the all-or-nothing theorem (the endpoint code passes [v4], [v6], [v6,v4], [v4,v6])"],
 )
